@@ -278,32 +278,64 @@ def _extract_from_filters(
     lineno: int,
     keywords: Union[list[str], dict[str, Any]],
 ) -> Iterable[MessageText]:
-    if isinstance(expression, FilteredExpression) and expression.filters:
-        first_filter = expression.filters[0]
-        if first_filter.name in keywords:
-            filter_callable = environment.filters.get(first_filter.name)
-            if isinstance(filter_callable, TranslatableFilter):  # noqa: SIM102
-                if message := filter_callable.message(  # type: ignore
-                    expression.left,
-                    first_filter,
-                    lineno,
-                ):
-                    yield message
+    if isinstance(expression, FilteredExpression):
+        yield from _extract_from_first_filter(
+            environment, expression.left, expression.filters, lineno, keywords
+        )
 
     if isinstance(expression, TernaryFilteredExpression):
         yield from _extract_from_filters(environment, expression.left, lineno, keywords)
 
-        if expression.filters and expression.alternative:
-            first_filter = expression.filters[0]
-            if first_filter.name in keywords:
-                filter_callable = environment.filters.get(first_filter.name)
-                if isinstance(filter_callable, TranslatableFilter):  # noqa: SIM102
-                    if message := filter_callable.message(  # type: ignore
-                        expression.alternative,
-                        first_filter,
-                        lineno,
-                    ):
-                        yield message
+        if expression.alternative:
+            yield from _extract_from_first_filter(
+                environment,
+                expression.alternative,
+                expression.filters,
+                lineno,
+                keywords,
+            )
+
+        # Tail filters are applied to the chosen branch. Their first filter gets a
+        # literal if that branch has no filters of its own.
+        if not expression.left.filters:
+            yield from _extract_from_first_filter(
+                environment,
+                expression.left.left,
+                expression.tail_filters,
+                lineno,
+                keywords,
+            )
+
+        if expression.alternative and not expression.filters:
+            yield from _extract_from_first_filter(
+                environment,
+                expression.alternative,
+                expression.tail_filters,
+                lineno,
+                keywords,
+            )
+
+
+def _extract_from_first_filter(
+    environment: Environment,
+    left: Expression,
+    filters: list[Filter] | None,
+    lineno: int,
+    keywords: Union[list[str], dict[str, Any]],
+) -> Iterable[MessageText]:
+    if not filters:
+        return
+
+    first_filter = filters[0]
+    if first_filter.name in keywords:
+        filter_callable = environment.filters.get(first_filter.name)
+        if isinstance(filter_callable, TranslatableFilter):  # noqa: SIM102
+            if message := filter_callable.message(  # type: ignore
+                left,
+                first_filter,
+                lineno,
+            ):
+                yield message
 
 
 def _strip_comment_tags(comments: list[str], tags: list[str]) -> list[str]:
